@@ -21,13 +21,14 @@ def _value_jobs(prop_id, family, scns, tier, seed, **kw):
     bfs_budget = kw.pop("bfs_budget", bfs_budget)
     sim_extra = kw.pop("sim_extra", 3)
     sim_budget = kw.pop("sim_budget", sim_budget)
+    bfs_empty_only = kw.pop("bfs_empty_only", False)
     for s in scns:
         s = dict(s)
         ncfg = len(s.get("configs") or [1])
-        s["max_resp"] = S.bfs_bound(s, max(2, bfs_budget // ncfg))
+        s["max_resp"] = 0 if bfs_empty_only else S.bfs_bound(s, max(2, bfs_budget // ncfg))
         jobs.append(make_job(s, family, ("replay_basic", "replay"), mode="bfs",
                              prop_id=prop_id, **kw))
-        depth = s["max_resp"] + sim_extra
+        depth = max(s["max_resp"], 1) + sim_extra
         num = max(1, sim_budget // depth)
         jobs.append(make_job(s, family, ("replay_basic", "replay"), mode="sim", seed=seed,
                              sim_num=num, sim_depth=depth + 1, sim_max_resp=depth,
@@ -565,7 +566,8 @@ def c10(tier, seed):
         scns.append(s)
     jobs = _value_jobs("C10", "c07", scns, tier, seed,
                        bfs_budget=220 if tier == "quick" else 12000,
-                       sim_budget=200 if tier == "quick" else 8000)
+                       sim_budget=450 if tier == "quick" else 8000,
+                       bfs_empty_only=(tier == "quick"))
     for j in jobs:
         j["replayer"] = ("mirror", "replay")
     return dict(
